@@ -280,15 +280,19 @@ def run_history(items, kind, hist, part=None, upto_only_last=False):
         if exp is OUT_OF_DOMAIN:
             # still perform it (it may disturb the state) but do not judge the value
             try:
-                impl(L)
-            except Exception:
+                with sandbox.watchdog(20):
+                    impl(L)
+            except (Exception, sandbox.CaseTimeout):
                 pass
             if part is not None:
                 part.skip("index outside the list (plain list raises)")
         else:
             try:
-                got = impl(L)
-                got = norm(got) if got is not OUT_OF_DOMAIN else got
+                with sandbox.watchdog(20):     # an observation of a list of <= 3 items takes microseconds
+                    got = impl(L)
+                    got = norm(got) if got is not OUT_OF_DOMAIN else got
+            except sandbox.CaseTimeout:
+                got = "raises NonTermination (20 s)"
             except Exception as e:  # the model never raises here
                 got = "raises " + type(e).__name__
             if part is not None:
